@@ -33,7 +33,7 @@ pub mod build_ {
 use super::*;
 use vstd::prelude::*;
 use roundtrip_::{built, tag_closed, plain, writable_start, gt};
-use escfn_::{escape, spec_escape, p_full, lemma_full_escape_no_quote, cow_str_bytes};
+use escfn_::{escape, partial_escape, minimal_escape, spec_escape, p_full, lemma_full_escape_no_quote, cow_str_bytes};
 use vstd::string::*;
 
 /// assumed shim for `bytes.splice(..n, name.iter().cloned())` (the replacement happens in `Drop` of the
@@ -192,6 +192,40 @@ impl<'a> From<(&'a str, &'a str)> for Attribute<'a> {
         Attribute {
             key: QName(val.0.as_bytes()),
             value: match escape(Cow::Borrowed(val.1)) {
+                Cow::Borrowed(s) => Cow::Borrowed(s.as_bytes()),
+                Cow::Owned(s) => Cow::Owned(s.into_bytes()),
+            },
+        }
+    }
+//@end
+}
+impl<'a> vstd::std_specs::convert::FromSpecImpl<(&'a str, Cow<'a, str>)> for Attribute<'a> {
+    open spec fn obeys_from_spec() -> bool { false }
+    open spec fn from_spec(v: (&'a str, Cow<'a, str>)) -> Self { arbitrary() }
+}
+impl<'a> From<(&'a str, Cow<'a, str>)> for Attribute<'a> {
+//@extract attributes::Attribute::from_str_cow_pair | src/events/attributes.rs :: impl<'a> From<(&'a str, Cow<'a, str>)> for Attribute<'a> :: fn from | serves=C09
+    /// Creates new attribute from text representation.
+    /// Key is stored as-is, but the value will be escaped.
+    ///
+    /// # Examples
+    ///
+    /// ```
+    /// # use std::borrow::Cow;
+    /// use pretty_assertions::assert_eq;
+    /// use quick_xml::events::attributes::Attribute;
+    ///
+    /// let features = Attribute::from(("features", Cow::Borrowed("Bells & whistles")));
+    /// assert_eq!(features.value, "Bells &amp; whistles".as_bytes());
+    /// ```
+    fn from(val: (&'a str, Cow<'a, str>)) -> (r: Attribute<'a>)
+        // C09: the key is stored as it is, the value is the fully escaped text -- so it holds no quote
+        ensures r.key.0@ == val.0.spec_bytes(), r.value@ == spec_escape(cow_str_bytes(val.1), p_full())
+    {
+        proof { axiom_cow_mut_bytes(); }
+        Attribute {
+            key: QName(val.0.as_bytes()),
+            value: match escape(val.1) {
                 Cow::Borrowed(s) => Cow::Borrowed(s.as_bytes()),
                 Cow::Owned(s) => Cow::Owned(s.into_bytes()),
             },
